@@ -2,7 +2,8 @@ From TFL Require Export Harness.Compare Model.PWLEval Model.CategoricalEval.
 Open Scope Q_scope.
 (* Cases of three kinds, each holding the model inputs and what the real layer
    returned.
-   PwlFixed: a float64 PWLCalibration with input_keypoints_type='fixed':
+   PwlFixed: a PWLCalibration with input_keypoints_type='fixed' (float64,
+     tol = tol64; or float32 - the layer's default dtype -, tol = tol32):
      constructor arguments, kernel, call arguments; implementation's call
      result (None = ValueError; list of matrices, one per split output),
      keypoints_inputs(), keypoints_outputs().
@@ -14,7 +15,7 @@ Open Scope Q_scope.
      implementation's tables vs the implementation's result.
    Cat: a CategoricalCalibration layer (float32, exact on dyadic kernels). *)
 Inductive case :=
-| PwlFixed (units : nat) (ks : list Q) (cyclic : bool) (kernel : list (list Q))
+| PwlFixed (tol : Q) (units : nat) (ks : list Q) (cyclic : bool) (kernel : list (list Q))
            (impute : bool) (miv mov : option Q) (mow : list Q) (split : bool)
            (as_list : bool) (inputs : list (list Q)) (is_missing : option (list (list Q)))
            (out : option (list (list (list Q)))) (kp_in kp_out : list (list Q))
@@ -38,11 +39,11 @@ Fixpoint qten_close (tol : Q) (a b : list (list (list Q))) : bool :=
 
 Definition check (c : case) : bool :=
   match c with
-  | PwlFixed units ks cyclic kernel impute miv mov mow split as_list inputs ms out kp_in kp_out =>
+  | PwlFixed tol units ks cyclic kernel impute miv mov mow split as_list inputs ms out kp_in kp_out =>
       let L := build_fixed units ks cyclic kernel impute miv mov mow split in
-      opt_close (qten_close tol64) (pwl_call L as_list inputs ms) out
-      && qmat_close tol64 (keypoints_inputs L) kp_in
-      && qmat_close tol64 (keypoints_outputs L) kp_out
+      opt_close (qten_close tol) (pwl_call L as_list inputs ms) out
+      && qmat_close tol (keypoints_inputs L) kp_in
+      && qmat_close tol (keypoints_outputs L) kp_out
   | PwlLearned tol units ks sm lefts lens cyclic kernel impute miv mov mow split as_list inputs ms out kp_in kp_out =>
       let Lm := build_learned units ks sm cyclic kernel impute miv mov mow split in
       let Li := mkPWL units true lefts lens cyclic kernel impute miv (build_missing_output units mov mow) split in
